@@ -33,7 +33,7 @@ MODEL_CFG = {
     'quick': dict(ArgSteps=4, NArgs=2, NVals=3, DistinctSteps=4, NElems=3,
                   ConcatSteps=4, MaxList=1, NItems=2, PermLen=4),
     'thorough': dict(ArgSteps=5, NArgs=2, NVals=3, DistinctSteps=5, NElems=4,
-                     ConcatSteps=5, MaxList=2, NItems=2, PermLen=5),
+                     ConcatSteps=4, MaxList=2, NItems=2, PermLen=5),
     'thorough3': dict(ArgSteps=4, NArgs=3, NVals=3, DistinctSteps=0, NElems=1,
                       ConcatSteps=0, MaxList=0, NItems=1, PermLen=4,
                       Configs='ArgConfigs'),
@@ -187,15 +187,19 @@ def _ReplayChunk(jobs):
   return [ReplayOne(j) for j in jobs]
 
 
-def Replay(behaviours, interps, workers=None, rotate=False):
-  """rotate: each behaviour under ONE interpretation, taken in turn (quick
-  tier); otherwise each behaviour under every interpretation."""
+def Replay(behaviours, interps, workers=None, per_behaviour=None):
+  """per_behaviour = n: each behaviour under n interpretations, taken in turn
+  from `interps`; None: each behaviour under every interpretation."""
   jobs = []
+  n_i = len(interps)
+  per = per_behaviour or n_i
   for n, b in enumerate(behaviours):
-    for iname in ([interps[n % len(interps)]] if rotate else interps):
+    for j in range(per):
+      iname = interps[(n * per + j) % n_i]
       if b['m'] in ('Distinct', 'Concat') and iname in (
           'text_args_neg_values', 'int_args_real_values'):
-        continue      # these only vary the arguments / shift the values
+        # these only vary the arguments / shift the values
+        iname = interps[j % 2]
       jobs.append((len(jobs), b, iname))
   chunks = [jobs[i:i + 500] for i in range(0, len(jobs), 500)]
   out = common.ParallelMap(_ReplayChunk, chunks, workers=workers, chunksize=1)
